@@ -189,7 +189,7 @@ func extractSpecLines(text string) (lines []string, nums []int) {
 }
 
 var clauseKeywords = []string{"requires", "ensures", "modifies", "loop", "invariant", "decreases", "let", "fresh", "pure", "trusted", "effect", "crash", "havoc", "assume", "refines", "ghostinit", "assert", "opaque", "inline", "detail", "ghostset", "abstractas"}
-var blockKeywords = []string{"func", "invoke", "ghost", "spec", "pred", "axiom", "global", "abstraction", "writers", "typeinv", "callbackframe", "locked", "scratch"}
+var blockKeywords = []string{"func", "invoke", "funcvalue", "ghost", "spec", "pred", "axiom", "global", "abstraction", "writers", "typeinv", "callbackframe", "locked", "scratch"}
 
 func firstWord(s string) (string, string) {
 	s = strings.TrimSpace(s)
@@ -416,7 +416,7 @@ func (sp *Specs) parseSpecText(file, text, pkgPath string) {
 			return &Clause{Label: label, Src: rw, Expr: e, Where: where}
 		}
 		switch w {
-		case "func", "invoke":
+		case "func", "invoke", "funcvalue":
 			cur = sp.parseHeader(w, rest, pkgPath, where)
 			curLoop = nil
 			if cur != nil {
@@ -832,7 +832,16 @@ func (sp *Specs) parseHeader(kind, rest, pkgPath, where string) *FuncSpec {
 		}
 		fs.Params, fs.Results = names(m[2]), names(m[3])
 		fs.Trusted = pkgPath == ""
+		if kind == "funcvalue" {
+			// assumed behaviour of every value of a named function type (application callbacks): never proved
+			fs.Key = "funcvalue:" + m[1]
+			fs.Trusted = true
+		}
 		return fs
+	}
+	if kind == "funcvalue" {
+		sp.errf(where, "funcvalue needs a quoted named function type")
+		return nil
 	}
 	if kind == "invoke" {
 		sp.errf(where, "invoke needs a quoted interface method")
